@@ -35,7 +35,7 @@ THEOREMS_BY_PROP = {
             "DepLogic.C15.flatten_pair", "DepLogic.C15.and_single_shape", "DepLogic.C15.or_single_shape",
             "DepLogic.C15.multiOf_flat", "DepLogic.C15.unionOfList_flat", "DepLogic.C15.intersection_flat",
             "DepLogic.C15.unionOf_flat", "DepLogic.C15.and_flat", "DepLogic.C15.or_flat",
-            "DepLogic.C15.exclude_flat_multi", "DepLogic.C15.exclude_flat_union", "DepLogic.C15.only_flat_multi", "DepLogic.C15.only_flat_union", "DepLogic.C15.only_flat", "DepLogic.C15.multiOf_son", "DepLogic.C15.unionOfList_sox", "DepLogic.C15.multiOf_atomic", "DepLogic.C15.unionOfList_atomic", "DepLogic.C15.only_atomic_multi", "DepLogic.C15.only_atomic_union", "DepLogic.C15.build_flat_conj", "DepLogic.C15.build_flat_disj"]}
+            "DepLogic.C15.exclude_flat_multi", "DepLogic.C15.exclude_flat_union", "DepLogic.C15.only_flat_multi", "DepLogic.C15.only_flat_union", "DepLogic.C15.only_flat", "DepLogic.C15.multiOf_son", "DepLogic.C15.unionOfList_sox", "DepLogic.C15.multiOf_atomic", "DepLogic.C15.unionOfList_atomic", "DepLogic.C15.only_atomic_multi", "DepLogic.C15.only_atomic_union", "DepLogic.C15.exclude_atomic_multi", "DepLogic.C15.exclude_atomic_union", "DepLogic.C15.build_flat_conj", "DepLogic.C15.build_flat_disj"]}
 THEOREMS: list[str] = []
 
 
